@@ -189,7 +189,10 @@ enumerated; this section only records where the build differs from the design.
   in band), in-band parameter-set faults (truncated at every length, garbage, cut after three bytes), every RTP pad
   count between payload + 1 and beyond the packet, and reporting of a hung driver with the case in progress.
 * **C08, C09** acceptor + case-generator pairs instead of one output automaton; H.265 added to C08.
-* **C10** as designed; the pool-dependence caveat of section 7 turned out unnecessary in practice (reuse happens
+* **C10** every behaviour is replayed at one of four positions on the source's time line (0, just before the 33-bit TS
+  clock wraps, just before 2^63 / 10^9 ticks = 28.5 h, nine days), the state of a stream that has been running that long
+  being installed through the verif-only export `VerifStartAt` rather than streamed - which exposed the int64 overflow
+  repaired in 3823098. Otherwise as designed; the pool-dependence caveat of section 7 turned out unnecessary in practice (reuse happens
   in every run), the server-level leg compares HTTP bytes with a synchronous reference run.
 * **C11** reference monitor + ten entry points (WSP added late: control + data socket, and a leg that joins a data
   socket to another user's channel using ids derived from the attacker's own - a genuine defect, fixed in b6695a6).
